@@ -290,6 +290,13 @@ func (r *rewriter) stmtList(list []ast.Stmt) []ast.Stmt {
 					out = append(out, r.rewriteMapRange(x, mt))
 				}
 			}
+		case *ast.DeferStmt:
+			// defer mu.Unlock()  ->  defer func() { __sim.LockReleasing(); mu.Unlock() }()
+			if _, typ, name := r.syncMethod(x.Call); (typ == "Mutex" || typ == "RWMutex") && (name == "Unlock" || name == "RUnlock") && len(x.Call.Args) == 0 {
+				x.Call = &ast.CallExpr{Fun: &ast.FuncLit{Type: &ast.FuncType{Params: &ast.FieldList{}}, Body: &ast.BlockStmt{List: []ast.Stmt{
+					&ast.ExprStmt{X: simCall("LockReleasing")}, &ast.ExprStmt{X: x.Call}}}}}
+				r.changed = true
+			}
 		case *ast.ExprStmt:
 			if call, ok := x.X.(*ast.CallExpr); ok {
 				recv, typ, name := r.syncMethod(call)
@@ -303,6 +310,12 @@ func (r *rewriter) stmtList(list []ast.Stmt) []ast.Stmt {
 						Cond: &ast.UnaryExpr{Op: token.NOT, X: &ast.CallExpr{Fun: &ast.SelectorExpr{X: recv, Sel: ast.NewIdent(try)}}},
 						Body: &ast.BlockStmt{List: []ast.Stmt{&ast.ExprStmt{X: simCall("YieldSpin", intLit(r.newSite(x.Pos(), kLockSpin)))}}},
 					})
+					// the simulator never stops a task for good while it holds a lock of the library
+					out = append(out, &ast.ExprStmt{X: simCall("LockAcquired")})
+					replaced = true
+				case (typ == "Mutex" || typ == "RWMutex") && (name == "Unlock" || name == "RUnlock") && len(call.Args) == 0 && inner == s:
+					out = append(out, r.yield(inner.Pos(), kStmt), &ast.ExprStmt{X: simCall("LockReleasing")}, s)
+					r.changed = true
 					replaced = true
 				case typ == "Once" && name == "Do" && inner == s:
 					out = append(out, &ast.ExprStmt{X: simCall("NoYield", intLit(1))}, s, &ast.ExprStmt{X: simCall("NoYield", intLit(-1))})
